@@ -75,7 +75,18 @@ def src_typed(rnd):
 def src_scopes(rnd):
     b = scopes.Builder(rnd)
     files = b.build()
-    return "scopes", files, "m.emb"
+    # the files of one source set may define types of the same name: as C++ headers that include one
+    # another they must live in different namespaces (as for src_typed)
+    out = {}
+    for k, (name, text) in enumerate(sorted(files.items())):
+        lines = text.split("\n")
+        at = 0
+        while at < len(lines) and (lines[at].startswith("import ") or not lines[at].strip() or lines[at].startswith("#") or lines[at].startswith("--")):
+            at += 1
+        if "(cpp) namespace" not in text:
+            lines.insert(at, '[(cpp) namespace: "scopes::f%d"]' % k)
+        out[name] = "\n".join(lines)
+    return "scopes", out, "m.emb"
 
 
 def src_writes(rnd):
@@ -229,6 +240,14 @@ def shard(idx, seed, n, n_names, avoid):
             kind, files, main = fn(sub)
         except Exception:
             raise
+        if sub.random() < 0.3 and kind not in ("corpus",):
+            # the same module in one of the namespace forms of the identifier-shape catalogue: every
+            # feature of the generated code meets every kind of enclosing namespace
+            ns = sub.choice([x for x in names.CPP_NAMESPACES if x])
+            text, nsub = re.subn(r'\[\(cpp\) namespace: "[^"]*"\]', '[(cpp) namespace: "%s"]' % ns, files[main], count=1)
+            if nsub:
+                files = dict(files)
+                files[main] = text
         cases.append(build_case(kind, files, main))
     for i in range(n_names):
         sub = random.Random(rnd.randrange(2**62))
